@@ -246,8 +246,12 @@ func TestVerif_C14(t *testing.T) {
 		for i := 0; i < perBatch; i++ {
 			// a name set with prefix-related and long names
 			nNames := 1 + rng.IntN(6)
+			if rng.IntN(6) == 0 {
+				nNames = 7 + rng.IntN(9) // larger sets: searches beyond a handful of elements
+			}
 			base := []string{"x", "xa", "xab", "x-a", "content-type", "content-typ", "content-type2", "authorization", "z",
-				strings.Repeat("k", 1+rng.IntN(40)), "x-" + strings.Repeat("q", rng.IntN(38)), "a", "b", "ab", "ba"}
+				strings.Repeat("k", 1+rng.IntN(40)), "x-" + strings.Repeat("q", rng.IntN(38)), "a", "b", "ab", "ba",
+				"x-m-aa", "x-m-ab", "x-m-b", "x-m-ba", "x-m-c", "x-m-ca", "x-m-d", "x-m-e", "x-m-f", "x-m-g", "x-m-h"}
 			seen := map[string]bool{}
 			var names []string
 			for len(names) < nNames {
